@@ -224,6 +224,11 @@ def normalize_cases(ck, rnd, n):
         ck.both("normalize", kind, [s], normalize_model(s), "normalize(a0)", lambda: str(ck.lib.normalize(ck.cel(s))))
 
 
+    # lower case is not case folding (sharp s, final sigma, ligatures, long s, micro sign) and not ASCII-only either
+    for s in (" Stra\u00dfe ", "\u03a3\u038a\u03a3\u03a5\u03a6\u039f\u03a3", "\ufb01n", "\u017f", "\u00b5M", "\u1e9e", "\u00c9COLE ", "\u212a", "\u01c5"):
+        ck.both("normalize", "case-folding", [s], s.strip().lower(), "normalize(a0)", lambda: str(ck.lib.normalize(ck.cel(s))))
+
+
 def glob_cases(ck, rnd, n):
     atoms = ["a", "b", "c", "*", "?", "[ab]", "[!a]", "[a-c]", "[!a-b]", ".", "ab", "**", "[b]", "[!c]"]
     for _ in range(n):
